@@ -4,6 +4,7 @@ package main
 
 import (
 	"fmt"
+	"go/types"
 	"sort"
 	"strings"
 
@@ -256,7 +257,98 @@ func c04More(c *Ctx) {
 		})
 		c.Check("L3", fnName(fn)+"/own messages are queued without blocking (select with default, overflow handed to a goroutine)", nb == 1, fn.Pos(), nb, "")
 	}
+	c04Constructors(c)
 	// a stale lock must be released by a later polka, including one that completes in the current round
 	lockRules(c)
 	c.LockPairing([]string{"consensus", "consensus/types"}, map[string]string{})
+}
+
+// c04Constructors: a constructor must not call a method of the object it is building that uses an interface or
+// pointer field the constructor has not assigned yet (a nil dereference at node start-up: the process dies before
+// consensus ever runs).
+func c04Constructors(c *Ctx) {
+	n := 0
+	for _, f := range c.P.ModFuncs {
+		if f.Pkg == nil || strings.TrimPrefix(f.Pkg.Pkg.Path(), modPath+"/") != "consensus" || len(f.Blocks) == 0 || f.Parent() != nil || !strings.HasPrefix(f.Name(), "New") {
+			continue
+		}
+		if strings.HasSuffix(c.P.Pos(f.Pos()), "_test.go") || strings.Contains(c.P.Pos(f.Pos()), "wal_generator.go") {
+			continue
+		}
+		f := f
+		allInstrs(f, false, func(_ *ssa.Function, in ssa.Instruction) {
+			a, ok := in.(*ssa.Alloc)
+			if !ok || !a.Heap {
+				return
+			}
+			st, ok := deptr(a.Type()).Underlying().(*types.Struct)
+			if !ok || namedOf(a.Type()) == "" || !strings.HasPrefix(namedOf(a.Type()), "consensus.") {
+				return
+			}
+			// fields assigned, by instruction
+			type asg struct {
+				field string
+				in    ssa.Instruction
+			}
+			var assigned []asg
+			var calls []*ssa.Call
+			for _, r := range *a.Referrers() {
+				switch x := r.(type) {
+				case *ssa.FieldAddr:
+					for _, r2 := range *x.Referrers() {
+						if s, isSt := r2.(*ssa.Store); isSt && s.Addr == ssa.Value(x) {
+							assigned = append(assigned, asg{fieldName(x.X.Type(), x.Field), s})
+						}
+					}
+				case *ssa.Call:
+					if len(x.Call.Args) > 0 && x.Call.Args[0] == ssa.Value(a) && x.Call.StaticCallee() != nil {
+						calls = append(calls, x)
+					}
+				}
+			}
+			for _, cl := range calls {
+				callee := cl.Call.StaticCallee()
+				if len(callee.Blocks) == 0 {
+					continue
+				}
+				n++
+				// fields of the receiver the callee dereferences: invoked through (interfaces) or loaded through (pointers)
+				used := map[string]ssa.Instruction{}
+				allInstrs(callee, false, func(_ *ssa.Function, x ssa.Instruction) {
+					cc := callCommon(x)
+					if cc == nil || !cc.IsInvoke() {
+						return
+					}
+					if u, isLoad := cc.Value.(*ssa.UnOp); isLoad {
+						if fa, isFA := u.X.(*ssa.FieldAddr); isFA && len(callee.Params) > 0 && fa.X == ssa.Value(callee.Params[0]) {
+							used[fieldName(fa.X.Type(), fa.Field)] = x
+						}
+					}
+				})
+				var missing []string
+				for fld, at := range used {
+					set := false
+					for _, as := range assigned {
+						if as.field == fld && reaches(as.in, cl) {
+							set = true
+						}
+					}
+					// fields the struct literal cannot leave nil are not interfaces; check the type
+					isIface := false
+					for i := 0; i < st.NumFields(); i++ {
+						if st.Field(i).Name() == fld {
+							_, isIface = st.Field(i).Type().Underlying().(*types.Interface)
+						}
+					}
+					if !set && isIface {
+						missing = append(missing, fmt.Sprintf("%s (used at %s)", fld, c.P.Pos(instrPos(at))))
+					}
+				}
+				sort.Strings(missing)
+				c.Check("U", fmt.Sprintf("%s/%s is called on the object under construction only after the interface fields it calls through are set", fnName(f), callee.Name()), len(missing) == 0, cl.Pos(), len(used),
+					"still nil at the call: "+strings.Join(missing, ", ")+" — a nil-interface method call panics while the node is being constructed")
+			}
+		})
+	}
+	c.Check("U", "consensus/constructor self-calls inventoried", n >= 1, c.fnPos("consensus.NewTimeoutTicker"), n, "")
 }
